@@ -462,6 +462,8 @@ def c06(chk):
         # how often the leaf size is doubled is the implementation's business: reported, not required
         chk.infos.append("the tiny-start-size cases did not make the library double its leaf size (policy differs from the pinned tree)")
     need_stat(chk, "writedirs_single_root_length_beyond_65536", 1)
+    need_stat(chk, "writedirs_exactly_on_budget", 2)
+    need_stat(chk, "writedirs_one_byte_over_budget", 2)
     chk.validate("Trace_Archive", trace, "writedirs", scope=scope_of("C06"), parallel=8, timeout=3000)
     def is_spill(o):
         return o["ev"] == "WriteDirs" and o["res"] == "ok" and len(o.get("leaves", [])) >= 2
